@@ -845,7 +845,7 @@ inline size_t parse_decimal(const char *begin, size_t len, int &to)
 {
 	const char *bsv(begin);
 	while(len-- > 0)
-		to = (to << 3) + (to << 1) + (*begin++ - '0');
+		to = to * 10 + (*begin++ - '0');	// not shifts: a malformed (non-digit) text makes the value negative
 	return begin - bsv;
 }
 
@@ -873,10 +873,19 @@ inline time_t time_to_epoch (const tm& ltm, int utcdiff=0)
    };
 
    const int tyears(ltm.tm_year ? ltm.tm_year - 70 : 0); // tm->tm_year is from 1900.
-   int tdays(mon_days[ltm.tm_mon] + (ltm.tm_mday ? ltm.tm_mday - 1 : 0) + tyears * 365 + (tyears + 2) / 4);
+   const int tmon(ltm.tm_mon < 0 ? 0 : ltm.tm_mon > 11 ? 11 : ltm.tm_mon); // malformed text can give any month
+   int tdays(mon_days[tmon] + (ltm.tm_mday ? ltm.tm_mday - 1 : 0) + tyears * 365 + (tyears + 2) / 4);
 	if (ltm.tm_year && ltm.tm_year % 4 == 0 && ltm.tm_mon < 2) // works till 2100, adjust for leap year with jan/feb +1day error
 		--tdays;
    return static_cast<time_t>(tdays) * 86400 + (ltm.tm_hour + utcdiff) * 3600 + ltm.tm_min * 60 + ltm.tm_sec;
+}
+
+/*! Convert seconds since the epoch to ticks; years beyond the tick range (2262) wrap instead of overflowing
+  \param secs seconds
+  \return ticks */
+inline Tickval::ticks epoch_to_ticks (time_t secs)
+{
+	return static_cast<Tickval::ticks>(static_cast<unsigned long long>(secs) * static_cast<unsigned long long>(Tickval::billion));
 }
 
 enum TimeIndicator { _time_only, _time_with_ms, _short_date_only, _date_only, _sec_only, _with_ms };
@@ -961,7 +970,7 @@ inline Tickval::ticks date_time_parse(const char *ptr, size_t len)
 		parse_decimal(++ptr, 3, millisecond);
 		result = millisecond * Tickval::million; // drop through
 	case 17: //: // 19981231-23:59:59
-		result += time_to_epoch(tms) * Tickval::billion;
+		result += epoch_to_ticks(time_to_epoch(tms));
 		break;
 	default:
 		break;
@@ -996,7 +1005,7 @@ inline Tickval::ticks time_parse(const char *ptr, size_t len, bool timeonly=fals
       result = millisecond * Tickval::million; // drop through
    case 8: // 23:59:59
 		if (!timeonly)
-			result += time_to_epoch(tms) * Tickval::billion;
+			result += epoch_to_ticks(time_to_epoch(tms));
 		else
 			result += (tms.tm_hour * 3600ULL + tms.tm_min * 60ULL + tms.tm_sec) * Tickval::billion;
       break;
@@ -1021,7 +1030,7 @@ inline Tickval::ticks date_parse(const char *ptr, size_t len)
 		parse_decimal(ptr, 2, tms.tm_mday);
 	else
 		tms.tm_mday = 1;
-	return time_to_epoch(tms) * Tickval::billion;
+	return epoch_to_ticks(time_to_epoch(tms));
 }
 
 //-------------------------------------------------------------------------------------------------
